@@ -2,6 +2,7 @@ package panos
 
 import (
 	"fmt"
+	"slices"
 	"sort"
 
 	"github.com/pkg/diff/myers"
@@ -510,7 +511,10 @@ func (ab *rulesPair) equalize(a, b *panRule, vsysPath string) []string {
 					result = append(result, cmd)
 				}
 			} else if r.IsInsert() {
-				object := &panMembers{Member: lb[r.LowB:r.HighB]}
+				// Use names of groups as known or created on device.
+				l := slices.Clone(lb[r.LowB:r.HighB])
+				ab.rPair.adaptGroups(l)
+				object := &panMembers{Member: l}
 				insert += printXMLValue(object)
 			} else {
 				// Check that addressgroups are equal or can be made equal.
